@@ -286,6 +286,8 @@ def run(ck: Checker) -> None:
     ck.guard("R-XP-ELEMENTS", lambda: r_reusable(ck, LXP))
     ck.guard("R-LEG-XPATH-SPELL", lambda: r_xpath_spell(ck))
     ck.guard("R-PRESENCE", lambda: r_legacy_presence(ck))
+    from . import state_rules as S
+    ck.guard("R-PRESENCE", lambda: S.r_class_attr_cache(ck, "R-PRESENCE", (LNODE,)))
     from .c18 import r_leg_live_links
     ck.guard("R-LEG-IDENT", lambda: r_leg_live_links(ck))  # the traversals enumerate the live children
     ck.guard("R-XP-ANYWHERE", lambda: r_legacy_match_head(ck))
